@@ -634,6 +634,30 @@ def state_of(recv):
     if name == 'Database':
         return canon({'data': recv.data, 'panel': recv.is_panel(), 'map': getattr(recv, 'individualMap', None), 'name': recv.name,
                       'generators': sorted(getattr(recv, 'number_generators', {}) or {}), 'nvars': len(recv.variables) if hasattr(recv, 'variables') else None})
+    import biogeme.expressions as ex
+
+    if isinstance(recv, ex.Expression):
+        # no deep walk through an expression after it has been handed to the engine: its own fields only
+        def elem(e, acc, depth=0):
+            if depth > 12:
+                return acc
+            for k in ('elementaryIndex', 'betaId', 'variableId', 'drawId', 'rvId', 'initValue', 'status', 'name'):
+                if hasattr(e, k):
+                    acc.append([type(e).__name__, k, canon(getattr(e, k))])
+            for c in list(getattr(e, 'children', []) or []):
+                elem(c, acc, depth + 1)
+            return acc
+
+        try:
+            text = mask_text(str(recv))
+        except Exception as e:  # noqa: BLE001
+            text = 'str raises ' + type(e).__name__
+        return ['expression', type(recv).__name__, text, recv.id_manager is not None, canon(getattr(recv, 'numberOfDraws', None)),
+                canon(getattr(recv, 'missingData', None)), canon(getattr(recv, 'fixedBetaValues', None)), elem(recv, [])]
+    if name == 'IdManager':
+        return canon({'free': list(recv.free_betas.names), 'fixed': list(recv.fixed_betas.names), 'vars': list(recv.variables.names),
+                      'draws': list(recv.draws.names), 'rv': list(recv.random_variables.names), 'values': list(recv.free_betas_values),
+                      'ndraws': recv.number_of_draws, 'elem': list(recv.elementary_expressions.names)})
     return canon(recv)
 
 
@@ -828,6 +852,12 @@ ENGINE_KINDS = {'And', 'BelongsTo', 'Beta', 'ConditionalSum', 'Derive', 'Divide'
                 'bioMin', 'bioMultSum', 'bioNormalCdf', 'cos', 'exp', 'log', 'logzero', 'sin', 'Catalog'}
 
 
+# kinds whose derivative the engine refuses ("is not differentiable"): an exception thrown inside the engine is kept for ever
+# (F-E2) and, as observed while building this check, leaves the heap corrupted (later malloc aborts / segfaults), so these
+# receivers are never asked for derivatives
+NON_DIFFERENTIABLE = {'And', 'Or', 'Equal', 'NotEqual', 'LessOrEqual', 'GreaterOrEqual', 'Less', 'Greater', 'BelongsTo', 'Derive'}
+
+
 def fo(fields):
     """post-processing of a function output: only the requested quantities (the others are uninitialised memory)"""
 
@@ -886,6 +916,18 @@ def arg_specs(owner_q, new_name, is_module):
         elif fn == 'get_value_c':
             spec('kw', lambda e, r: ((), {'database': pick_db(e, r), 'prepare_ids': True, 'number_of_draws': 4}))
             spec('positional+aggregation', lambda e, r: ((pick_db(e, r),), {'prepare_ids': True, 'aggregation': True, 'number_of_draws': 4}))
+        elif fn in ('get_value_and_derivatives', 'create_function') and owner_q.split('.')[-1] in NON_DIFFERENTIABLE:
+            if fn == 'create_function':
+                def post0(result, r, e):
+                    return fo(['function'])(result(e.np.array(list(r.id_manager.free_betas_values), dtype=float) + 0.125), r, e)
+
+                spec('value only', lambda e, r: ((pick_db(e, r), 4), {'gradient': False, 'hessian': False, 'bhhh': False}), post0)
+                spec('value only kw', lambda e, r: ((), {'database': pick_db(e, r), 'number_of_draws': 4, 'gradient': False, 'hessian': False}), post0)
+            else:
+                spec('value only', lambda e, r: ((), {'database': pick_db(e, r), 'prepare_ids': True, 'gradient': False, 'hessian': False, 'bhhh': False,
+                                                       'number_of_draws': 4}), fo(['function']))
+                spec('value only named', lambda e, r: ((None, pick_db(e, r), 4, False, False, False), {'prepare_ids': True, 'named_results': True,
+                                                                                                       'aggregation': False}), fo(['functions', 'function']))
         elif fn == 'get_value_and_derivatives':
             spec('gradient', lambda e, r: ((), {'database': pick_db(e, r), 'prepare_ids': True, 'gradient': True, 'hessian': False, 'bhhh': False,
                                                  'number_of_draws': 4}), fo(['function', 'gradient']))
@@ -1157,6 +1199,8 @@ def run_slot_call(T_by, R, s, recv_label, spec, seed, mark=None, sides=('old', '
             mark(side)
         with core.scratch(TOML):
             env = Env()
+            env.np.random.seed(seed + 17)
+            random.seed(seed + 17)
             try:
                 if s['is_module']:
                     recv = None
